@@ -89,3 +89,28 @@ Print Assumptions C07_closed_legal_or_none.
 Print Assumptions C07_closed_never_panics.
 Print Assumptions C07_closed_ab_total.
 Print Assumptions Reach.Sound_step.
+
+(* ---- the same statements on the WIDE domain (ReachWide.v): nothing but "no counter overflows
+   within the depth" is asked of the clocks, so positions at or beyond the move-count draw and
+   third repetitions are covered ---- *)
+From ChessV Require ReachWide.
+
+Theorem C07_wide_legal_or_none : forall T rook_t bishop_t depth b,
+  1 <= depth -> ReachWide.SoundW T rook_t bishop_t (N.to_nat depth) b ->
+  (exists v m (cands : list (cmove * effect)), search T rook_t bishop_t depth b = SOk (v, m, b)
+       /\ gen_moves T rook_t bishop_t b (turn b) = Ok (map fst cands, b) /\ In m (map fst cands))
+  \/ (search T rook_t bishop_t depth b = SErr NoAvailableMoves /\ gen_moves T rook_t bishop_t b (turn b) = Ok ([], b)).
+Proof. exact ReachWide.C07_wide. Qed.
+
+Theorem C07_wide_never_panics : forall T rook_t bishop_t depth b,
+  ReachWide.SoundW T rook_t bishop_t (N.to_nat depth) b -> search T rook_t bishop_t depth b <> SPanic.
+Proof. exact ReachWide.C07_wide_never_panics. Qed.
+
+Check @ReachWide.soundWb_spec.
+Check @ReachWide.SoundW_step.
+Check @ReachWide.Sound_SoundW.
+Check ReachWide.SoundW_demo.
+Check ReachWide.wide_demo_not_far.
+
+Print Assumptions C07_wide_legal_or_none.
+Print Assumptions C07_wide_never_panics.
